@@ -18,6 +18,6 @@ PROP = {
 
 # (category, text, design_ref, technique)
 LEVEL = ("proof",
-         "Lean 4 theorems on the model of the emitted check sequence, for every index width <= 64, length, stride and base: index_oob_aborts_before_access (value >= len: abort with NO access to the array), index_in_range_exact (value < len: exactly [base+value*stride, +size) inside the array), slice_oob_aborts_before_access / slice_in_range_exact (only the header is read before the abort), unwrap_wrong_variant_aborts / unwrap_right_variant_yields_payload / unwrap_nullable, literal_oob_rejected. Tie to the code on every run: 370 (thorough 900) template programs — arrays of 4 element types and 3 lengths as locals with guards, struct fields between guard fields, slices, ^ and ^mut pointers, read and write at every run-time index 0..len+4, nested arrays, #unwrap of every (current, requested) variant pair of an enum / optional / nullable pointer / error union — built by the real CLI and run; abort-or-pass and the printed lines (nothing after the faulting access, guards intact) are compared with the model and with the property.",
+         "Lean 4 theorems on the model of the emitted check sequence, for every index width <= 64, length, stride and base: index_oob_aborts_before_access (value >= len: abort with NO access to the array), index_in_range_exact (value < len: exactly [base+value*stride, +size) inside the array), slice_oob_aborts_before_access / slice_in_range_exact (only the header is read before the abort), unwrap_wrong_variant_aborts / unwrap_right_variant_yields_payload / unwrap_nullable, literal_oob_rejected. Tie to the code on every run: 370 (thorough 900) template programs — arrays of 4 element types and 3 lengths as locals with guards, struct fields between guard fields, slices, ^ and ^mut pointers, read and write at every run-time index 0..len+4, nested arrays, compound assignment `a[i] op= b[j]` / `a[i] op= a[j]` with either index out of range, narrow (u8 / i8 / u16) index variables, #unwrap of every (current, requested) variant pair of an enum / optional / nullable pointer / error union — built by the real CLI and run; abort-or-pass and the printed lines (nothing after the faulting access, guards intact) are compared with the model and with the property.",
          "§4 C10",
          "Lean 4 proof on the emitted check plan + end-to-end translation validation on template programs")
